@@ -10,7 +10,7 @@ CHECKS = {
     "C12": dict(
         level="model_checking",
         runs=[dict(name="ds", target="h_ds", args=[], quick=[], thorough=[])],
-        deadline=dict(quick=150, thorough=600),
+        deadline=dict(quick=300, thorough=900),
         bounds=dict(
             quick="elastic array: size <=64 bytes, record sizes {1,3,8} mixed freely, init{0,1,5} append{0,1,2,5} resize{0,1,4,9,21} "
                   "shrink{0,1,3,100} records, truncate, exportdup, export, size-overflowing append/resize/shrink; elastic queue: <=12 records "
